@@ -109,6 +109,22 @@ theorem C10_cancel_then_lost_eofs {m Ta Ti : Nat} (s : Send.State) (r : Recv.Sta
   obtain ⟨q1, q2, q3, q4⟩ := c2 pdu hpdu
   exact ⟨q1, by rw [q2, he], q3, by obtain ⟨f, f1, f2⟩ := q4; exact ⟨f, f1, by rw [f2, he]⟩⟩
 
+/-! ### the premises are satisfiable -/
+
+example : (eofRounds (sendStep (sendStep exS4 5 .cancel) 5 .send) [1000000005, 2000000100]).2.length = 2 ∧
+    ∀ pdu ∈ (eofRounds (sendStep (sendStep exS4 5 .cancel) 5 .send) [1000000005, 2000000100]).2,
+      (recvStep exR4 2000000200 (.pdu pdu)).recvState = .Cancelled ∧
+      (recvStep exR4 2000000200 (.pdu pdu)).condition = .CancelReceived := by
+  have hqt : QT 4 1000000000 3000000000 exS4.timer := by
+    refine qt_run _ ⟨?_, ?_, rfl⟩ _
+    · exact cq_new _ _ _ (by decide)
+    · exact cq_new _ _ _ (by decide)
+  obtain ⟨c1, c2⟩ := C10_cancel_then_lost_eofs (m := 4) (Ta := 1000000000) (Ti := 3000000000) exS4 exR4 5 0 0 2000000200
+    [1000000005, 2000000100] (by decide) (by decide) (by decide) hqt ⟨by decide, by decide, by decide⟩ (by decide)
+    ⟨by decide, by decide, by decide, by decide, by decide, by decide, by decide, by decide, by decide, by decide, trivial⟩
+    (by decide) (by decide)
+  exact ⟨c1, fun pdu hp => ⟨(c2 pdu hp).1, (c2 pdu hp).2.1⟩⟩
+
 end Cfdp.Loop
 
 #print axioms Cfdp.Loop.cancel_enters_wait
